@@ -39,7 +39,11 @@ for p in props:
                     '; '.join(m.get('not_decided', ['value-level clauses'])) +
                     '. Trusted base: python ast, vf/cfg.py statement CFG (implicit exceptions only inside try), vf/model.py name resolution; '
                     'assumes no monkey-patching and documented behaviour of external libraries.',
-      'technique': m.get('technique') or ('static analysis: custom AST/CFG/call-graph rules (%s)' % ', '.join(kinds)),
+      'technique': (m.get('technique') or ('static analysis: custom AST/CFG/call-graph rules (%s)' % ', '.join(kinds))) +
+                   '; plus two rules that apply to every property over the files it is anchored in: R90 bug patterns (option accepted but no longer read, optional value '
+                   'tested by truthiness, same-named arguments transposed, repeated mutable container, loop-variable capture by a stored lambda) and R91 expression-level '
+                   'comparison with the vetted reference tree (argument order, boolean flags, forwarded keywords, relations, constant indices, operand order, one-leaf '
+                   'replacements; vf/generic.py, vf/diffrules.py, tables in vf/reference.json); rules of other properties that read the same files run in violation-only mode',
   })
 man = {
     'version': 1,
@@ -60,9 +64,12 @@ man = {
                                    'self-validation by in-memory source variants and replay of the stored seeded changes / refactorings (vf/selftest.py, vf/udiff.py)'}],
     'checks': checks,
     'notes': 'All checks parse /repo/flax on every run (no caching across runs) and never execute it. Exit 0 held / 1 VIOLATION / 2 ANALYSIS-ERROR. '
-             'Known findings: known_findings.json. fix: commits in /repo are listed there as status=fixed. Stored corpus: seeded/ (80 confirmed breaking changes by '
-             'independent sub-agents, all reported) and benign/ (behaviour-preserving refactorings, none reported as VIOLATION); tools/regress.py, tools/noise.py, '
-             'tools/alpha_rename.py are the regression harnesses (see DESIGN.md section 10).',
+             'Known findings: known_findings.json. fix: commits in /repo are listed there as status=fixed. Stored corpus: seeded/ (%d confirmed breaking changes by '
+             'independent sub-agents; the ones listed in seeded/DETECTED.json are reported and guarded against regression by the thorough tier; blind results of each round '
+             'in seeded/round*_blind_results.json) and benign/ (%d behaviour-preserving refactorings, none reported as VIOLATION); tools/regress.py, tools/noise.py, '
+             'tools/alpha_rename.py are the regression harnesses (see DESIGN.md section 10).' % (
+                 len([d for d in os.listdir(os.path.join(V, 'seeded')) if os.path.isdir(os.path.join(V, 'seeded', d))]),
+                 len([d for d in os.listdir(os.path.join(V, 'benign')) if os.path.isdir(os.path.join(V, 'benign', d))])),
     'not_applicable': na,
 }
 json.dump(man, open(os.path.join(V, 'MANIFEST.json'), 'w'), indent=1)
